@@ -22,7 +22,7 @@ META = {
                    '"a/b", page sizes 1 / 2 / 1000) with key texts full of quotes, backslashes, unicode, separators and JSON metacharacters, '
                    'values and metadata from the faithful domain (shared sub-objects between keys in the sharing flavour), interleaved with '
                    'fetches, metadata-only fetches, fetches of ids never saved and restarts (new cassette object over the same durable state); '
-                   'every fetch is compared with a reference store. Also: several threads saving, and several threads fetching, through ONE cassette object under the line-level scheduler (pre-emption inside the serializer), failed saves, storage-level sampling.'),
+                   'every fetch is compared with a reference store. Also: several threads saving, and several threads fetching, through ONE cassette object under the line-level scheduler (pre-emption inside the serializer), failed saves, storage-level sampling. Categories as services name them (dotted, versioned).'),
     'level_note': 'Trusted: ModelStore (a dict), fake S3 bucket, whole-document faithful-domain guard (serializer limits are not cassette defects). Recording keys "_metadata" and serializer tags are excluded.',
     'rule': ('evaluation = one history (1-12 saves, 2-20 reads, 0-3 restarts) on one cassette; non-trivial = at least one recording with >= 2 keys was '
              'saved and fetched after a restart or after later saves; distinct = distinct event-log digest.'),
